@@ -221,6 +221,11 @@ def run_property(mod, tier, seed):
         out_lines.append("  signature: %s   (%d occurrence(s))" % (sigkey(w["sig"]), agg.viol_counts[sigkey(w["sig"])]))
     if len(unknown) > MAXREPORT:
         out_lines.append("(... %d further distinct unlisted violation signatures not replayed)" % (len(unknown) - MAXREPORT))
+    parts = getattr(mod, "PARTS", [])
+    present = {re.split(r"[:/]", k)[0] for k in agg.outcomes}
+    missing = [x for x in parts if x not in present]
+    if missing and not broken:
+        broken.append("vacuous exploration: part(s) %s produced no outcome at all (outcome classes seen: %s)" % (missing, sorted(present)))
     if len(agg.outcomes) < 2 and not broken:
         broken.append("vacuous exploration: only %d distinct outcome class(es): %r" % (len(agg.outcomes), dict(agg.outcomes)))
     wall = time.time() - t0
